@@ -299,7 +299,14 @@ func (g *Grammar) Desugar(sepErr bool) *CFG {
 		}
 		return c.ErrSym
 	}
-	symName := func(r Ref) string { return g.RefName(r) }
+	// helper rules are keyed by name, as in lox; the error terminal is spelled
+	// "@error" there, so that a rule called ERROR does not share its helpers
+	symName := func(r Ref) string {
+		if r.Kind == KErr {
+			return "@error"
+		}
+		return g.RefName(r)
+	}
 	nt := func(n int) int { return c.NumT + n }
 	addProd := func(lhs int, rhs ...int) {
 		c.Prods = append(c.Prods, CProd{LHS: lhs, RHS: rhs, UserRule: -1, UserProd: -1, Method: -1})
